@@ -121,7 +121,7 @@ def main(tier, replay):
     for ax in r["axioms"]:
         trusted.append("axiom: " + ax)
 
-    n = 300 if tier == "quick" else 15000
+    n = 300 if tier == "quick" else 40000
     rng = random.Random(seed * 7919 + 16)
     corpus = _corpus()
     scheds = corpus + [cl.gen_c16(rng, "s%d" % i) for i in range(n)]
